@@ -181,6 +181,61 @@ pub fn canon(s: &str) -> String {
     t
 }
 
+/// Like `run_suite`, but executes the requests on `threads` worker threads (independent cases, e.g. one
+/// test world per request). The trace keeps the generated order.
+pub fn run_suite_par(
+    suite: &str,
+    threads: usize,
+    generate: impl FnOnce(&mut Rng, bool) -> Vec<String>,
+    exec: impl Fn(&str) -> String + Sync,
+) {
+    if std::env::var("VERIF_REPLAY").ok().filter(|s| !s.is_empty()).is_some() {
+        return run_suite(suite, generate, exec);
+    }
+    let out_dir = std::env::var("VERIF_OUT").expect("VERIF_OUT must name the output directory");
+    std::fs::create_dir_all(&out_dir).unwrap();
+    let mut reqs: Vec<String> = Vec::new();
+    if let Ok(dir) = std::env::var("VERIF_CORPUS") {
+        if let Ok(text) = std::fs::read_to_string(format!("{dir}/{suite}.txt")) {
+            for l in text.lines() {
+                let l = l.split('\t').next().unwrap().trim();
+                if !l.is_empty() && !l.starts_with('#') {
+                    reqs.push(l.to_string());
+                }
+            }
+        }
+    }
+    let mut rng = Rng::from_env(suite);
+    reqs.extend(generate(&mut rng, thorough()));
+    let next = std::sync::atomic::AtomicUsize::new(0);
+    let results: Mutex<Vec<Option<(String, u128)>>> = Mutex::new(vec![None; reqs.len()]);
+    std::thread::scope(|sc| {
+        for _ in 0..threads.max(1) {
+            sc.spawn(|| loop {
+                let i = next.fetch_add(1, std::sync::atomic::Ordering::SeqCst);
+                if i >= reqs.len() {
+                    break;
+                }
+                let started = std::time::Instant::now();
+                let resp = match guarded(|| exec(&reqs[i])) {
+                    Ok(s) => s,
+                    Err(p) => p,
+                };
+                results.lock().unwrap_or_else(|e| e.into_inner())[i] = Some((resp, started.elapsed().as_millis()));
+            });
+        }
+    });
+    let results = results.into_inner().unwrap_or_else(|e| e.into_inner());
+    let mut f = std::io::BufWriter::new(std::fs::File::create(format!("{out_dir}/{suite}.trace")).unwrap());
+    let mut times = std::io::BufWriter::new(std::fs::File::create(format!("{out_dir}/{suite}.times")).unwrap());
+    for (r, res) in reqs.iter().zip(results) {
+        let (resp, ms) = res.expect("every request was executed");
+        writeln!(times, "{}\t{}", ms, &r[..r.len().min(80)]).unwrap();
+        writeln!(f, "{}\t{}", r, canon_resp(&resp)).unwrap();
+    }
+    f.flush().unwrap();
+}
+
 /// Drives one suite. `gen` produces request lines; `exec` runs one request on the real code.
 pub fn run_suite(
     suite: &str,
@@ -214,12 +269,16 @@ pub fn run_suite(
     }
     let path = format!("{out_dir}/{suite}.trace");
     let mut f = std::io::BufWriter::new(std::fs::File::create(&path).unwrap());
+    let mut times = std::io::BufWriter::new(std::fs::File::create(format!("{out_dir}/{suite}.times")).unwrap());
     for r in &reqs {
         debug_assert!(!r.contains('\t') && !r.contains('\n'));
+        let started = std::time::Instant::now();
         let resp = match guarded(|| exec(r)) {
             Ok(s) => s,
             Err(p) => p,
         };
+        // wall time per case (diagnostics only; never compared)
+        writeln!(times, "{}\t{}", started.elapsed().as_millis(), &r[..r.len().min(80)]).unwrap();
         writeln!(f, "{}\t{}", r, canon_resp(&resp)).unwrap();
         // flush per case: if the process is killed (allocation failure, stack overflow) the trace
         // shows which request was in flight
